@@ -309,6 +309,15 @@ func (s *PScn) materialise(dir string) error {
 				os.Symlink("does-not-exist", filepath.Join(pd, e)) // makes dirhash fail for this directory
 				continue
 			}
+			if strings.HasSuffix(e, "/") {
+				// a sub-directory of the package directory (assets kept beside the code), whatever its name looks like: its files
+				// are the user's
+				sub := filepath.Join(pd, strings.TrimSuffix(e, "/"))
+				os.MkdirAll(filepath.Join(sub, "nested"), 0o755)
+				os.WriteFile(filepath.Join(sub, "README.md"), []byte("assets\n"), 0o644)
+				os.WriteFile(filepath.Join(sub, "nested", "data.json"), []byte("{}\n"), 0o644)
+				continue
+			}
 			if e == "linked.go" {
 				// a source file that is a symbolic link to a file kept outside the package directory: part of the package and of
 				// its directory hash like any other file
@@ -433,6 +442,23 @@ type script struct {
 
 var curScript *script
 
+// keptExpose: the generator keeps its reference snippets (a package-level variable per name, as hand-written
+// generators have them) and renders the same values into every file of every package of every run of the process
+var keptExposeMu sync.Mutex
+var keptExposes = map[string]snippet.Snippet{}
+
+func keptExpose(path, name string) snippet.Snippet {
+	keptExposeMu.Lock()
+	defer keptExposeMu.Unlock()
+	k := path + "\x00" + name
+	if s, ok := keptExposes[k]; ok {
+		return s
+	}
+	s := snippet.PkgExpose(path, name)
+	keptExposes[k] = s
+	return s
+}
+
 type recState struct {
 	name  string
 	count int             // per-instance state: number of calls so far (rendered into the output)
@@ -466,6 +492,23 @@ func (g *recState) do(c gengo.Context, pkg, typ string, isAlias bool) error {
 				for _, name := range names {
 					_, _ = c.Doc(ts[name])
 				}
+			}
+		}
+		// … and for the tags of every type of the processed package itself, which it then scribbles over (a generator that
+		// strips its own marker, or narrows the set to its own keys): what Doc hands out is the caller's
+		own := c.Package("").Types()
+		names := make([]string, 0, len(own))
+		for name := range own {
+			names = append(names, name)
+		}
+		sort.Strings(names)
+		for _, name := range names {
+			tags, _ := c.Doc(own[name])
+			for k := range tags {
+				delete(tags, k)
+			}
+			if tags != nil {
+				tags["gengo:"+g.name] = []string{"false"}
 			}
 		}
 	}
@@ -533,7 +576,7 @@ func (g *recState) do(c gengo.Context, pkg, typ string, isAlias bool) error {
 			case "block":
 				c.Render(snippet.Block(it.S))
 			case "ref":
-				c.Render(snippet.T(it.S, snippet.Arg("ref", snippet.PkgExpose(it.Path, it.Name))))
+				c.Render(snippet.T(it.S, snippet.Arg("ref", keptExpose(it.Path, it.Name))))
 			case "results":
 				// what the resolver says about a function of the package, as a comment
 				if fn := c.Package("").Function(it.Name); fn != nil {
@@ -561,6 +604,11 @@ func (g *recState) do(c gengo.Context, pkg, typ string, isAlias bool) error {
 		case 'd':
 			c.Defer(func(c gengo.Context) error { render(c, fmt.Sprintf("// deferred %s %s\n", g.name, typ)); return nil })
 		case 'e':
+			// a callback that registers another one (which does nothing), then the one that fails
+			c.Defer(func(c gengo.Context) error {
+				c.Defer(func(gengo.Context) error { return nil })
+				return nil
+			})
 			c.Defer(func(c gengo.Context) error { return errors.New("boom") })
 		case 'q':
 			c.Defer(func(c gengo.Context) error {
